@@ -55,14 +55,17 @@ struct Counts {
   std::vector<int> who;
   long finished = 0;
   explicit Counts(size_t n) : cnt(n, 0), who(n, -1) {}
+  size_t slowBelow = 0;       // unbalanced work: the elements below this index (the first thread's block) are slow
   void hit(size_t e, vh::Rng* r) {
     __atomic_add_fetch(&cnt[e], 1, __ATOMIC_SEQ_CST);
     who[e] = galois::substrate::ThreadPool::getTID();
-    if (r) { int k = r->below(40); for (volatile int i = 0; i < k * 20; ++i) {} }
+    if (e < slowBelow) { for (volatile int i = 0; i < 3000; ++i) {} }
+    else if (r && !slowBelow) { int k = r->below(40); for (volatile int i = 0; i < k * 20; ++i) {} }
     __atomic_add_fetch(&finished, 1, __ATOMIC_SEQ_CST);
   }
 };
 
+static bool g_unbalanced = false;
 static void report(const char* kind, size_t n, unsigned chunk, bool steal, unsigned threads, Counts& c, uint64_t s) {
   std::vector<VL> bad;
   for (size_t e = 0; e < n && bad.size() < 8; ++e) if (c.cnt[e] != 1) bad.push_back({(long long)e, c.cnt[e]});
@@ -87,6 +90,7 @@ template <unsigned CS, bool STEAL>
 static void doAllCase(size_t n, unsigned threads, uint64_t s, int kindSel) {
   galois::setActiveThreads(threads);
   Counts c(n);
+  if (g_unbalanced) c.slowBelow = n / std::max(1u, threads);
   vh::Rng r(s);
   vh::Rng* rp = g_mode == "ctl" ? nullptr : &r;
   const char* kind = "int";
@@ -234,6 +238,19 @@ int main(int argc, char** argv) {
         unsigned t = 1 + (unsigned)rng.below(maxT);
         chunkDispatch(cs, n, t, rng.next(), (int)rng.below(5));
       }
+  }
+  if (g_mode == "free" && getenv("GALOIS_VERIF_TOPO")) {
+    // work stealing across sockets: unbalanced work (the first thread's block is slow, everybody else runs dry and steals),
+    // forward-only and random-access ranges, small chunks, many repetitions
+    g_unbalanced = true;
+    for (int rep = 0; rep < (thorough ? 500 : 120); ++rep) {
+      size_t n = rep % 3 == 0 ? 500 : rep % 3 == 1 ? 2000 : 4097;
+      unsigned t = std::max(2u, std::min(maxT, 4u + (unsigned)rng.below(5)));
+      uint64_t s = rng.next();
+      int kindSel = rep % 2 ? 2 : 1;
+      if (rep % 4 < 2) doAllCase<3, true>(n, t, s, kindSel); else doAllCase<1, true>(n, t, s, kindSel);
+    }
+    g_unbalanced = false;
   }
   onEachAndRegions(rng, maxT, ctl ? (thorough ? 300 : 60) : (thorough ? 200 : 40));
   fprintf(stderr, "doall: %lld records\n", o.n);
